@@ -1,27 +1,39 @@
 /-
-C06 helper lemmas: invariant of the process-shutdown transition system (repaired `awaitPandoraTermination`).
+C06 helper lemmas: invariant of the process-shutdown transition system (`awaitPandoraTermination`) for a
+configuration that waits in the signal branch, notifies both signals and cancels on both.
 -/
 import Pandora.Model.C06CliShutdown
 
 namespace Pandora.Proofs.C06Cli
 open Pandora.Model.CliShutdown
 
+/-- the code has the three properties the proof needs -/
+structure Good (cfg : Cfg) : Prop where
+  waits : cfg.waitOnErrs = true
+  notified : ∀ s, cfg.notified s = true
+  cancels : ∀ s, cfg.cancels s = true
+
+theorem good_repaired : Good Cfg.repaired := ⟨rfl, fun _ => rfl, fun _ => rfl⟩
+
 structure Inv (st : St) : Prop where
   errsOk : st.errsReady = some true → st.flushed = true
-  sigsLe : st.sigs ≤ st.delivered
-  waited : (st.pc = .sigWait ∨ st.pc = .sigWaitTasks) → st.sigs + 1 ≤ st.delivered
+  sigsLe : st.sigs.length ≤ st.delivered
+  waited : (st.pc = .sigWait ∨ st.pc = .sigWaitTasks) → st.sigs.length + 1 ≤ st.delivered
   exitOk : ∀ x, st.exit = some x →
     x.flushed = true ∨ (x.reason = .timeout ∧ st.timerFired = true) ∨ (x.reason = .secondSignal ∧ 2 ≤ st.delivered)
   exitPc : st.exit ≠ none → st.pc = .exited
+  /-- once the main goroutine has left the outer select other than by a normal finish, the run context is cancelled -/
+  canc : (st.pc = .sigWait ∨ st.pc = .sigWaitTasks ∨ st.pc = .errWait) → st.cancelled = true
+  exitCanc : ∀ x, st.exit = some x → x.reason ≠ .finished → st.cancelled = true
 
 theorem inv_init : Inv {} := by
-  refine ⟨?_, ?_, ?_, ?_, ?_⟩ <;> simp
+  refine ⟨?_, ?_, ?_, ?_, ?_, ?_, ?_⟩ <;> simp
 
-theorem inv_step {st : St} (h : Inv st) (e : Ev) : Inv (step true st e) := by
-  obtain ⟨h1, h2, h3, h4, h5⟩ := h
+theorem inv_step {cfg : Cfg} (g : Good cfg) {st : St} (h : Inv st) (e : Ev) : Inv (step cfg st e) := by
+  obtain ⟨h1, h2, h3, h4, h5, h6, h7⟩ := h
   unfold step
   by_cases hx : st.pc = .exited
-  · simp only [hx, if_true]; exact ⟨h1, h2, h3, h4, h5⟩
+  · simp only [hx, if_true]; exact ⟨h1, h2, h3, h4, h5, h6, h7⟩
   · have hne : st.exit = none := by
       cases he : st.exit with
       | none => rfl
@@ -29,44 +41,48 @@ theorem inv_step {st : St} (h : Inv st) (e : Ev) : Inv (step true st e) := by
     simp only [hx, if_false]
     cases e with
     | signal s =>
-      dsimp only
+      simp only [g.notified s, Bool.not_true, Bool.false_eq_true, if_false]
       split
       · refine ⟨h1, by simp; omega, fun hp => by simp at hp ⊢; have := h3 hp; omega,
-          fun x hxe => by simp [hne] at hxe, by simpa using h5⟩
+          fun x hxe => by simp [hne] at hxe, by simpa using h5, h6, fun x hxe => by simp [hne] at hxe⟩
       · refine ⟨h1, by simp; omega, fun hp => by simp at hp ⊢; have := h3 hp; omega,
-          fun x hxe => by simp [hne] at hxe, by simpa using h5⟩
+          fun x hxe => by simp [hne] at hxe, by simpa using h5, h6, fun x hxe => by simp [hne] at hxe⟩
     | engineReturned ok =>
       dsimp only
       split
-      · exact ⟨h1, h2, h3, h4, h5⟩
+      · exact ⟨h1, h2, h3, h4, h5, h6, h7⟩
       · split
-        · exact ⟨h1, h2, h3, h4, h5⟩
+        · exact ⟨h1, h2, h3, h4, h5, h6, h7⟩
         · rename_i hd hk
-          refine ⟨?_, h2, h3, by simpa using h4, by simpa using h5⟩
+          refine ⟨?_, h2, h3, by simpa using h4, by simpa using h5, h6, by simpa using h7⟩
           intro he
           simp at he
           subst he
           simpa using hk
     | tasksDone =>
       dsimp only
-      exact ⟨fun _ => rfl, h2, h3, by simpa using h4, by simpa using h5⟩
+      exact ⟨fun _ => rfl, h2, h3, by simpa using h4, by simpa using h5, h6, by simpa using h7⟩
     | timerFires =>
       dsimp only
       split
-      · refine ⟨h1, h2, h3, ?_, by simpa using h5⟩
+      · refine ⟨h1, h2, h3, ?_, by simpa using h5, h6, by simpa using h7⟩
         intro x hxe
         simp [hne] at hxe
-      · exact ⟨h1, h2, h3, h4, h5⟩
+      · exact ⟨h1, h2, h3, h4, h5, h6, h7⟩
     | takeSignal =>
       dsimp only
       split
-      · exact ⟨h1, h2, h3, h4, h5⟩
-      · rename_i hs
+      · exact ⟨h1, h2, h3, h4, h5, h6, h7⟩
+      · rename_i s rest hs
+        have hlen : st.sigs.length = rest.length + 1 := by rw [hs]; rfl
         split
-        · refine ⟨h1, by simp; omega, fun _ => by simp; omega, by simp [hne], by simp [hne]⟩
+        · refine ⟨h1, by simp; omega, fun _ => by simp; omega, by simp [hne], by simp [hne],
+            fun _ => by simp [g.cancels s], by simp [hne]⟩
         · rename_i hp
           have := h3 (Or.inl hp)
-          refine ⟨h1, by simp [St.die]; omega, fun _ => by simp [St.die]; omega, ?_, by simp [St.die]⟩
+          have hc := h6 (Or.inl hp)
+          refine ⟨h1, by simp [St.die]; omega, fun _ => by simp [St.die]; omega, ?_, by simp [St.die],
+            fun _ => by simpa [St.die] using hc, fun _ _ _ => by simpa [St.die] using hc⟩
           intro x hxe
           simp [St.die] at hxe
           subst hxe
@@ -74,60 +90,75 @@ theorem inv_step {st : St} (h : Inv st) (e : Ev) : Inv (step true st e) := by
           exact ⟨rfl, by (try simp [St.die]); omega⟩
         · rename_i hp
           have := h3 (Or.inr hp)
-          refine ⟨h1, by simp [St.die]; omega, fun _ => by simp [St.die]; omega, ?_, by simp [St.die]⟩
+          have hc := h6 (Or.inr (Or.inl hp))
+          refine ⟨h1, by simp [St.die]; omega, fun _ => by simp [St.die]; omega, ?_, by simp [St.die],
+            fun _ => by simpa [St.die] using hc, fun _ _ _ => by simpa [St.die] using hc⟩
           intro x hxe
           simp [St.die] at hxe
           subst hxe
           right; right
           exact ⟨rfl, by (try simp [St.die]); omega⟩
-        · exact ⟨h1, h2, h3, h4, h5⟩
+        · exact ⟨h1, h2, h3, h4, h5, h6, h7⟩
     | takeErrs =>
       dsimp only
       split
       · rename_i he hp
-        refine ⟨by simp [St.die], by simpa [St.die] using h2, by simp [St.die], ?_, by simp [St.die]⟩
-        intro x hxe
-        simp [St.die] at hxe
-        subst hxe
-        left
-        exact h1 he
-      · refine ⟨by simp, by simpa using h2, by simp, by simp [hne], by simp [hne]⟩
+        refine ⟨by simp [St.die], by simpa [St.die] using h2, by simp [St.die], ?_, by simp [St.die],
+          by simp [St.die], ?_⟩
+        · intro x hxe
+          simp [St.die] at hxe
+          subst hxe
+          left
+          exact h1 he
+        · intro x hxe hr
+          simp [St.die] at hxe
+          subst hxe
+          simp at hr
+      · refine ⟨by simp, by simpa using h2, by simp, by simp [hne], by simp [hne], by simp, by simp [hne]⟩
       · rename_i hp
-        simp only [if_true]
-        refine ⟨by simp, by simpa using h2, fun _ => by simpa using h3 (Or.inl hp), by simp [hne], by simp [hne]⟩
-      · exact ⟨h1, h2, h3, h4, h5⟩
+        simp only [g.waits, if_true]
+        have hc := h6 (Or.inl hp)
+        refine ⟨by simp, by simpa using h2, fun _ => by simpa using h3 (Or.inl hp), by simp [hne], by simp [hne],
+          fun _ => by simpa using hc, by simp [hne]⟩
+      · exact ⟨h1, h2, h3, h4, h5, h6, h7⟩
     | takeTimeout =>
       dsimp only
       split
       · rename_i hf
         split
         all_goals first
-          | exact ⟨h1, h2, h3, h4, h5⟩
-          | (refine ⟨by simpa [St.die] using h1, by simpa [St.die] using h2, by simp [St.die], ?_, by simp [St.die]⟩
+          | exact ⟨h1, h2, h3, h4, h5, h6, h7⟩
+          | (rename_i hp
+             have hc : st.cancelled = true := h6 (by simp [hp])
+             refine ⟨by simpa [St.die] using h1, by simpa [St.die] using h2, by simp [St.die], ?_, by simp [St.die],
+               fun _ => by simpa [St.die] using hc, fun _ _ _ => by simpa [St.die] using hc⟩
              intro x hxe
              simp [St.die] at hxe
              subst hxe
              right; left
              exact ⟨rfl, by simpa [St.die] using hf⟩)
-      · exact ⟨h1, h2, h3, h4, h5⟩
+      · exact ⟨h1, h2, h3, h4, h5, h6, h7⟩
     | takeWaitDone =>
       dsimp only
       split
       · rename_i hf
         split
         all_goals first
-          | exact ⟨h1, h2, h3, h4, h5⟩
-          | (refine ⟨by simpa [St.die] using h1, by simpa [St.die] using h2, by simp [St.die], ?_, by simp [St.die]⟩
+          | exact ⟨h1, h2, h3, h4, h5, h6, h7⟩
+          | (rename_i hp
+             have hc : st.cancelled = true := h6 (by simp [hp])
+             refine ⟨by simpa [St.die] using h1, by simpa [St.die] using h2, by simp [St.die], ?_, by simp [St.die],
+               fun _ => by simpa [St.die] using hc, fun _ _ _ => by simpa [St.die] using hc⟩
              intro x hxe
              simp [St.die] at hxe
              subst hxe
              left
              exact hf)
-      · exact ⟨h1, h2, h3, h4, h5⟩
+      · exact ⟨h1, h2, h3, h4, h5, h6, h7⟩
 
-theorem inv_run (tr : List Ev) {st : St} (h : Inv st) : Inv (run true st tr) := by
+theorem inv_run {cfg : Cfg} (g : Good cfg) (tr : List Ev) {st : St} (h : Inv st) : Inv (run cfg st tr) := by
   induction tr generalizing st with
   | nil => exact h
-  | cons e es ih => exact ih (inv_step h e)
+  | cons e es ih => exact ih (inv_step g h e)
 
 end Pandora.Proofs.C06Cli
